@@ -383,14 +383,14 @@ Proof.
   intros H; inv H. apply Eff_sameL. reflexivity.
 Qed.
 
-Lemma mg_deploy_bal st a st' r : mg_deploy st a = Some (st', r) -> Bal st st'.
+Lemma mg_deploy_bal st a m st' r : mg_deploy st a m = Some (st', r) -> Bal st st'.
 Proof.
   unfold mg_deploy.
   repeat match goal with |- context [if ?c then None else _] => destruct c; [discriminate|] end.
   intros H; inv H. apply Eff_sameL. reflexivity.
 Qed.
 
-Lemma mg_update_bal st a st' r : mg_update st a = Some (st', r) -> Bal st st'.
+Lemma mg_update_bal st a m st' r : mg_update st a m = Some (st', r) -> Bal st st'.
 Proof.
   unfold mg_update.
   repeat match goal with |- context [if ?c then None else _] => destruct c; [discriminate|] end.
@@ -411,6 +411,7 @@ Lemma mg_destroy_bal st a st' r : WF (L st) -> mg_destroy cfg st a = Some (st', 
 Proof.
   intros Hwf. unfold mg_destroy.
   destruct (negb (mc_present (contract_of st a))); [discriminate|].
+  match goal with |- context [if ?c then None else _] => destruct c; [discriminate|] end.
   destruct (block_account cfg st (caddr a)) as [[st1 r1]|] eqn:E; [|discriminate].
   intros H; inv H. eapply Bal_trans; [apply (block_account_bal _ _ _ _ Hwf E)|].
   apply Eff_sameL. reflexivity.
